@@ -37,6 +37,10 @@ InvalidComponent: ...
 '460'
 >>> info('460001234567890')['country']
 'China'
+>>> info('467071234567890')  # unknown MNC
+Traceback (most recent call last):
+    ...
+InvalidComponent: ...
 """
 
 from stdnum.exceptions import *
@@ -78,7 +82,10 @@ def info(number):
     # split the number
     from stdnum import numdb
     info = dict(number=number)
-    mcc_info, mnc_info, msin_info = numdb.get('imsi').info(number)
+    parts = numdb.get('imsi').info(number)
+    if len(parts) != 3:
+        raise InvalidComponent()  # unknown MCC or MNC
+    mcc_info, mnc_info, msin_info = parts
     info['mcc'] = mcc_info[0]
     info.update(mcc_info[1])
     info['mnc'] = mnc_info[0]
